@@ -9,6 +9,7 @@ use super::env::verif_harness;
 use super::env::Change;
 use super::monitor;
 use super::shadow;
+use super::shadow::unroll;
 use crate::engine::propagation::Propagator;
 use crate::engine::variables::DomainId;
 use crate::propagators::element::ElementPropagator;
@@ -25,13 +26,11 @@ fn sem_element(len: usize, at: fn(usize) -> i64) -> bool {
         return false;
     }
     let mut holds = false;
-    let mut i = 0;
-    while i < len {
-        if index == i as i64 && at(i + 1) == at(len + 2) {
+    unroll!(i in [0, 1, 2] {
+        if i < len && index == i as i64 && at(i + 1) == at(len + 2) {
             holds = true;
         }
-        i += 1;
-    }
+    });
     holds
 }
 
@@ -43,7 +42,7 @@ fn element(len: usize, holes: usize, changes: &[Change]) {
         monitor::PROPAGATOR = Some(&mut propagator as *mut _ as *mut dyn Propagator);
     }
     monitor::set_semantics(sem_element(len, monitor::v), sem_element(len, monitor::w));
-    let outcome = protocol(&mut propagator, n, changes, false, 2);
+    let outcome = protocol(&mut propagator, n, changes, false, 1);
     kani::cover!(unsafe { monitor::LAZY_RESOLVED } > 0, "lazy reason resolved");
     if outcome.ok && !outcome.pending && all_fixed(n) {
         assert!(
@@ -58,19 +57,28 @@ fn element(len: usize, holes: usize, changes: &[Change]) {
 }
 
 fn element_domains(len: usize, holes: usize) {
-    let mut i = 1;
-    while i <= len {
-        shadow::init_any(i, 0);
-        i += 1;
-    }
+    unroll!(i in [1, 2, 3] {
+        if i <= len {
+            shadow::init_any(i, 0);
+        }
+    });
     // the index: a small window around the valid range, with holes
     shadow::init_within(len + 1, -2, len as i32 + 1, holes);
     shadow::init_any(len + 2, 0);
 }
 
 verif_harness! {
-    #[kani::unwind(9)]
+    #[kani::unwind(4)]
     fn element_2() {
+        element_domains(2, 0);
+        monitor::pick_points(4);
+        element(2, 0, &[]);
+    }
+}
+
+verif_harness! {
+    #[kani::unwind(4)]
+    fn element_2_index_hole() {
         element_domains(2, 1);
         monitor::pick_points(4);
         element(2, 1, &[]);
@@ -78,20 +86,11 @@ verif_harness! {
 }
 
 verif_harness! {
-    #[kani::unwind(9)]
+    #[kani::unwind(4)]
     fn element_2_change() {
         element_domains(2, 0);
         monitor::pick_points(4);
         let changes = [Change::any(4)];
         element(2, 0, &changes);
-    }
-}
-
-verif_harness! {
-    #[kani::unwind(9)]
-    fn element_3() {
-        element_domains(3, 1);
-        monitor::pick_points(5);
-        element(3, 1, &[]);
     }
 }
